@@ -32,15 +32,22 @@ inductive Val where
 /-- Go `int` arithmetic wraps at 64 bits -/
 def wrap64 (i : Int) : Int := Int.bmod i (2 ^ 64)
 
-/-- the code of `float64(i)`; exact for |i| < 2^53 (beyond that Go rounds — outside the model: `none`) -/
+/-- the code of `float64(i)` for a Go int: exact up to 53 significant bits, beyond that IEEE
+round-to-nearest-even on the bits that do not fit (a carry out of the mantissa lands in the exponent field) -/
 def floatCodeOfInt (i : Int) : Option Int :=
   if i = 0 then some 0 else
   let n := i.natAbs
-  if n < 2 ^ 53 then
-    let k := Nat.log2 n
-    let bits : Nat := (1023 + k) * 2 ^ 52 + (n - 2 ^ k) * 2 ^ (52 - k)
-    some (if i < 0 then -(bits : Int) else (bits : Int))
-  else none
+  let k := Nat.log2 n
+  let q : Nat :=
+    if k ≤ 52 then n * 2 ^ (52 - k)
+    else
+      let sh := k - 52
+      let q0 := n / 2 ^ sh
+      let rem := n % 2 ^ sh
+      let half := 2 ^ (sh - 1)
+      if rem > half || (rem == half && q0 % 2 == 1) then q0 + 1 else q0
+  let bits : Nat := (1023 + k) * 2 ^ 52 + (q - 2 ^ 52)
+  some (if i < 0 then -(bits : Int) else (bits : Int))
 
 /-- comparison outcome: `some b` or `none` = the Go function returned an error (or the model does not cover it) -/
 def toFloatCode : Val → Option Int
@@ -374,16 +381,16 @@ def heapDown : Nat → Array Item → Nat → Nat → Array Item
 /-- `heap.Push(h, x)` -/
 def heapPush (h : Array Item) (x : Item) : Array Item :=
   let h := h.push x
-  heapUp h.size h (h.size - 1)
+  heapUp (h.size + 1) h (h.size - 1)
 
 /-- `heap.Pop(h)`: swap(0, n), down(0, n), remove the last -/
 def heapPop (h : Array Item) : Option (Item × Array Item) :=
   if h.size = 0 then none else
   let n := h.size - 1
-  let h := aswap h 0 n
-  let h := heapDown (n + 1) h 0 n
-  match h[n]? with
-  | some x => some (x, h.pop)
+  let h1 := aswap h 0 n
+  let h2 := heapDown (h.size + 1) h1 0 n
+  match h2[n]? with
+  | some x => some (x, h2.pop)
   | none => none
 
 /-- an abstract priority queue: what `top` needs from container/heap -/
